@@ -386,7 +386,6 @@ func genG12(repo string, w *Out) error {
 
 	// ------------------------------------------------------------ proxy_connect.go, proxy.go
 	for _, x := range [][3]string{
-		{"skel_OnProxyConnectResponse", "internal/martian/proxy_connect.go", "OnProxyConnectResponse"},
 		{"skel_connectHTTP", "internal/martian/proxy_connect.go", "Proxy.connectHTTP"},
 		{"skel_maybeConnectErrorResponse", "internal/martian/proxy_connect.go", "maybeConnectErrorResponse"},
 		{"skel_handleLoop", "internal/martian/proxy.go", "Proxy.handleLoop"},
@@ -408,6 +407,62 @@ func genG12(repo string, w *Out) error {
 			return err
 		}
 	}
+	// ------------------------------------------------------------ relay of a rejected CONNECT (Reject.v)
+	{
+		pcf, err := Parse(repo, "internal/martian/proxy_connect.go")
+		if err != nil {
+			return err
+		}
+		worker := "OnProxyConnectResponse"
+		if _, err := pcf.Func("onProxyConnectResponse"); err == nil {
+			worker = "onProxyConnectResponse" // the exported function is a thin wrapper
+			if _, err := emit("skel_OnProxyConnectResponse_wrapper", "internal/martian/proxy_connect.go", "OnProxyConnectResponse"); err != nil {
+				return err
+			}
+		}
+		ocr, err := emit("skel_OnProxyConnectResponse", "internal/martian/proxy_connect.go", worker)
+		if err != nil {
+			return err
+		}
+		// the body of the rejection is read iff a positive Content-Length announces one
+		w.DefBool("reject_reads_body_only_when_length_positive", g12Has(ocr, "if connectRes.ContentLength > 0") && !g12HasPrefix(ocr, "if connectRes.ContentLength != 0"))
+		// ... and through a reader that gives up after a time limit (a select on a timer with a return)
+		bounded := false
+		reader := ""
+		for _, t := range ocr {
+			if strings.HasPrefix(t, "call io.ReadAll(") {
+				reader = "io.ReadAll"
+			}
+			if strings.HasPrefix(t, "call readAllWithin(connectRes.Body, ") {
+				reader = "readAllWithin"
+			}
+		}
+		if reader == "readAllWithin" {
+			raw, err := emit("skel_readAllWithin", "internal/martian/proxy_connect.go", "readAllWithin")
+			if err != nil {
+				return err
+			}
+			inTimer := false
+			for _, t := range raw {
+				if t == "comm <-t.C" {
+					inTimer = true
+					continue
+				}
+				if strings.HasPrefix(t, "comm ") {
+					inTimer = false
+				}
+				if inTimer && strings.HasPrefix(t, "return") {
+					bounded = true
+				}
+			}
+			bounded = bounded && g12Has(raw, "select")
+		} else {
+			w.Linef("(* the rejection's body is read with %s *)", reader)
+			w.DefStrList("skel_readAllWithin", nil)
+		}
+		w.DefBool("reject_body_read_is_bounded", bounded)
+	}
+
 	// ------------------------------------------------------------ proxy_handler.go (the http.Handler variant of the exchange)
 	ph := "internal/martian/proxy_handler.go"
 	for _, fn := range []string{"handleRequest", "handleConnectRequest", "tunnel", "handleUpgradeResponse", "writeErrorResponse"} {
